@@ -126,7 +126,12 @@ func c13HTML(s *tgScn, variant int) string {
 			for k := 0; k < c.Words; k++ {
 				words = append(words, fmt.Sprintf("r%dc%d", ri+1, ci+1))
 			}
-			fmt.Fprintf(&b, `<td colspan="%d" rowspan="%d"%s>%s</td>`, c.Cs, c.Rs, w, strings.Join(words, " "))
+			cs := fmt.Sprint(c.Cs)
+			if c.Cs == 0 {
+				// an invalid colspan: it counts as 1
+				cs = [...]string{"0", "-2", "x"}[(ri+ci)%3]
+			}
+			fmt.Fprintf(&b, `<td colspan="%s" rowspan="%d"%s>%s</td>`, cs, c.Rs, w, strings.Join(words, " "))
 		}
 		b.WriteString("</tr>")
 		if head && ri == 0 {
